@@ -143,21 +143,40 @@ unhex = MG.unhex
 INF = float("inf")
 
 
+def _load_classes():
+    """harness/impl/c12_classes.py (classes of this check) without importing autofit."""
+    import importlib.util
+    spec = importlib.util.spec_from_file_location("c12_classes", os.path.join(common.VERIF, "harness", "impl", "c12_classes.py"))
+    mod = importlib.util.module_from_spec(spec)
+    spec.loader.exec_module(mod)
+    return mod
+
+
+K = _load_classes()
+MG.SIGNATURES.update(K.SIGNATURES)          # this process only: expected trees and Coq printers know the C12 classes
+
+
 def load_config():
-    """(class, attribute) -> (width modifier, gaussian limits), read straight from the harness's prior config (YAML),
-    not through the code under test."""
+    """(class, attribute) -> (width modifier | None, gaussian limits | None), read straight from the harness's prior
+    config (YAML), not through the code under test. Classes of module vclasses / c12_classes, and ModelInstance (the
+    class under which priors held directly by a Collection are looked up). A subclass inherits its parent's entries."""
     import yaml
-    path = os.path.join(common.VERIF, "harness", "config", "priors", "vclasses.yaml")
-    raw = yaml.safe_load(open(path))
     table = {}
-    for cls, attrs in raw.items():
-        for name, d in attrs.items():
-            wm = d.get("width_modifier")
-            gl = d.get("gaussian_limits")
-            table[(cls, name)] = {
-                "wm": None if wm is None else (wm["type"], float(wm["value"])),
-                "lim": None if gl is None else (float(gl["lower"]), float(gl["upper"])),
-            }
+    base = os.path.join(common.VERIF, "harness", "config", "priors")
+    for rel in ("vclasses.yaml", "c12_classes.yaml", os.path.join("autofit", "mapper", "model.yaml")):
+        raw = yaml.safe_load(open(os.path.join(base, rel)))
+        for cls, attrs in raw.items():
+            for name, d in attrs.items():
+                wm = d.get("width_modifier")
+                gl = d.get("gaussian_limits")
+                table[(cls, name)] = {
+                    "wm": None if wm is None else (wm["type"], float(wm["value"])),
+                    "lim": None if gl is None else (float(gl["lower"]), float(gl["upper"])),
+                }
+    for sub, parent in K.INHERITS.items():
+        for (cls, name), e in list(table.items()):
+            if cls == parent:
+                table.setdefault((sub, name), e)
     return table
 
 
@@ -170,8 +189,11 @@ def apply_wm(wm, mean):
     return abs(wm[1] * mean) if wm[0] == "Relative" else wm[1]
 
 
-def places(e, out, holder=None):
-    """Every place a pool prior occupies in the program: ref -> [(kind, class, attribute name)]."""
+def places(e, out, holder=None, parent_key=None):
+    """Every place a pool prior occupies in the program: ref -> [(kind, class, attribute name)], the (class, name) under
+    which THAT place is configured: the Model's class and the attribute / tuple member name; ModelInstance and the
+    collection key for a prior held directly by a Collection (the key of the enclosing collection when the prior sits
+    under a number); nothing for an operand of an arithmetic prior."""
     t = e["t"]
     if t == "prior":
         out.setdefault(e["ref"], []).append(holder)
@@ -185,73 +207,72 @@ def places(e, out, holder=None):
                 for i, m in enumerate(sub["members"]):
                     places(m, out, ("model", e["cls"], "%s_%d" % (arg, i)))
             else:
-                places(sub, out, ("model", e["cls"], arg))
+                places(sub, out, ("model", e["cls"], arg), arg)
         for k, sub in e.get("extra", []):
-            places(sub, out, ("model", e["cls"], k))
+            places(sub, out, ("model", e["cls"], k), k)
     elif t == "coll":
         for k, sub in MG.resolve_copies(e)["items"]:
-            places(sub, out, ("coll", None, k))
+            name = k if not k.isdigit() or parent_key is None else parent_key
+            places(sub, out, ("coll", "ModelInstance", name), k)
+
+
+def place_config(prog, place, i):
+    """(width modifier, limits) configured for one place of pool prior i."""
+    kind, cls, name = place
+    old = prog["pool"][i]
+    ent = CONFIG.get((cls, name)) if kind in ("model", "coll") else None
+    return (ent["wm"] if ent and ent["wm"] else DEFAULT_WM,
+            ent["lim"] if ent and ent["lim"] else (unhex(old["lo"]), unhex(old["hi"])))
 
 
 def candidates(prog, i, wms):
-    """Width modifiers / limits that may legitimately be 'the configured ones' of pool prior i."""
+    """The configured (width modifier, limits) of pool prior i: those of one of the places it really occupies. A prior's
+    own width modifier overrides the configured one."""
     pl = {}
     places(prog["root"], pl)
-    old = prog["pool"][i]
-    old_lim = (unhex(old["lo"]), unhex(old["hi"]))
-    wm_c, lim_c = [], []
-    for kind, cls, name in pl.get(i, []):
-        ent = CONFIG.get((cls, name)) if kind == "model" else None
-        wm_c.append(ent["wm"] if ent and ent["wm"] else DEFAULT_WM)
-        lim_c.append(ent["lim"] if ent and ent["lim"] else old_lim)
-        # a prior shared between places may be looked up under the class of one place and the name of another
-        # (prior_class_dict vs. the last name in the walk): then nothing is configured and the defaults apply
-        if len(pl.get(i, [])) > 1:
-            wm_c.append(DEFAULT_WM)
-            lim_c.append(old_lim)
+    pairs = [place_config(prog, p, i) for p in pl.get(i, [])]
     if str(i) in (wms or {}):
         w = wms[str(i)]
-        wm_c = [(w["type"], unhex(w["value"]))]
-    return wm_c, lim_c
+        pairs = [((w["type"], unhex(w["value"])), lim) for _, lim in pairs]
+    return pairs
 
 
-def root_digit_prior(prog):
-    r = prog["root"]
-    return r["t"] == "coll" and any(k.isdigit() and sub["t"] == "prior" for k, sub in MG.resolve_copies(r)["items"])
+def shared_with_different_config(prog, wms):
+    """Pool priors that occupy several places whose configuration differs."""
+    pl = {}
+    places(prog["root"], pl)
+    out = []
+    for i, ps in pl.items():
+        if len(ps) > 1 and len({repr(place_config(prog, p, i)) for p in ps}) > 1:
+            out.append(i)
+    return out
 
 
-def has_counted_collection(e):
-    """A list-style collection (built from a list or by append) has a non-zero item counter."""
-    t = e["t"]
-    if t == "coll":
-        return (e["form"] in ("list", "append") and len(e["items"]) > 0) or any(
-            has_counted_collection(sub) for _, sub in MG.resolve_copies(e)["items"])
-    if t == "model":
-        return any(has_counted_collection(sub) for sub in e["kw"].values() if sub["t"] in ("model", "coll"))
-    return False
+def tightened(spec, lim):
+    lo, hi = (unhex(x) for x in lim)
+    return max(lo, unhex(spec["lo"])), min(hi, unhex(spec["hi"]))
 
 
 def classes_of(c):
+    """Finding classes, computed from the case alone."""
     prog, mode = c["program"], c["mode"]
     out = ["mode:" + mode["k"]] + ["feature:" + f for f in prog["features"]]
     k = mode["k"]
-    if k != "fixed" and "const-in-collection" in prog["features"]:
-        out.append("collection-constant")
-    if k != "fixed" and has_counted_collection(prog["root"]):
-        out.append("collection-item-number")
-    if k == "means":
-        if root_digit_prior(prog):
-            out.append("digit-name-at-root")
-        if mode["a"] is None:
-            means = [unhex(x) for x in mode["means"]]
-            for i, m in enumerate(means[:len(prog["pool"])]):
-                if m < 0:
-                    if mode["r"] is not None or any(w[0] == "Relative" for w in candidates(prog, i, c.get("wms"))[0]):
-                        out.append("relative-width-negative-mean")
-                        break
+    n = len(prog["pool"])
+    if k == "means" and shared_with_different_config(prog, c.get("wms")):
+        out.append("shared-prior-config-mixup")
+    if k != "fixed" and c.get("extras"):
+        out.append("collection-nonfloat-constant")
+    if k == "limits":
+        m = min(n, len(mode["limits"]))
+        if any(s["family"] == "loggaussian" for s in prog["pool"][:m]):
+            out.append("with-limits-loggaussian")
+        if any(s["family"] == "uniform" and tightened(s, l) != (unhex(s["lo"]), unhex(s["hi"]))
+               for s, l in zip(prog["pool"][:m], mode["limits"])):
+            out.append("with-limits-keeps-message")
     if k == "bounded":
         b = unhex(mode["b"])
-        if b > 0 and any(unhex(f) - b >= unhex(f) + b for f in mode["floats"]):
+        if b > 0 and any(unhex(f) - b >= unhex(f) + b for f in mode["floats"][:n]):
             out.append("bounded-absorbed")
     return out
 
@@ -309,6 +330,146 @@ def gen_new_spec(rng):
     return s
 
 
+def walk_models(e, f):
+    """Apply f to every model / collection node of a program (copies denote their source and are not visited)."""
+    t = e["t"]
+    if t == "model":
+        f(e)
+        for sub in e["kw"].values():
+            if sub["t"] in ("model", "coll"):
+                walk_models(sub, f)
+    elif t == "coll":
+        f(e)
+        for _, sub in e["items"]:
+            if sub["t"] in ("model", "coll"):
+                walk_models(sub, f)
+
+
+def used_refs(e, out):
+    t = e["t"]
+    if t == "prior":
+        out.add(e["ref"])
+    elif t == "arith":
+        used_refs(e["l"], out), used_refs(e["r"], out)
+    elif t == "tuple":
+        for m in e["members"]:
+            used_refs(m, out)
+    elif t == "model":
+        for sub in e["kw"].values():
+            used_refs(sub, out)
+        for _, sub in e.get("extra", []):
+            used_refs(sub, out)
+    elif t == "coll":
+        for _, sub in e["items"]:
+            used_refs(sub, out)
+
+
+def renumber(prog):
+    """Drop pool priors that are no longer used and renumber the references (creation order is kept)."""
+    used = set()
+    used_refs(prog["root"], used)
+    keep = sorted(used)
+    new = {old: i for i, old in enumerate(keep)}
+
+    def ren(e):
+        t = e["t"]
+        if t == "prior":
+            e["ref"] = new[e["ref"]]
+        elif t == "arith":
+            ren(e["l"]), ren(e["r"])
+        elif t == "tuple":
+            for m in e["members"]:
+                ren(m)
+        elif t == "model":
+            for sub in e["kw"].values():
+                ren(sub)
+            for _, sub in e.get("extra", []):
+                ren(sub)
+        elif t == "coll":
+            for _, sub in e["items"]:
+                ren(sub)
+    ren(prog["root"])
+    prog["pool"] = [prog["pool"][old] for old in keep]
+
+
+EXTRA_KINDS = ["int", "str", "none", "obj", "bool"]
+
+
+def specialise(prog, rng):
+    """Post-processing of a modelgen program (modelgen.py is shared): (1) N1(inner: G2, s) components become
+    KN(inner: K2 | K2S, s, a), whose attribute names collide with those of the child and whose configuration differs,
+    sometimes with one prior shared between parent and child; (2) some priors become log-gaussian; returns the
+    non-float constants to be set on collections: [[path of the collection, key, kind]]."""
+    feats = set(prog["features"])
+
+    def convert(e):
+        if e["t"] != "model" or e["cls"] != "N1" or rng.random() < 0.4:
+            return
+        inner = e["kw"]["inner"]
+        inner["cls"] = "K2S" if rng.random() < 0.3 else "K2"
+        inner["kw"] = {"a": inner["kw"]["a"], "s": inner["kw"]["b"]}
+        e["cls"] = "KN"
+        feats.add("parent-child-same-names")
+        q = rng.random()
+        if q < 0.45 and inner["kw"]["a"]["t"] == "prior":
+            e["kw"]["s"] = dict(inner["kw"]["a"])          # KN.s and inner.a are one prior
+            feats.update(["shared", "parent-child-shared"])
+        elif q < 0.6 and inner["kw"]["s"]["t"] == "prior":
+            e["kw"]["s"] = dict(inner["kw"]["s"])
+            feats.update(["shared", "parent-child-shared"])
+        q = rng.random()
+        if q < 0.3 and e["kw"]["s"]["t"] == "prior":
+            e["kw"]["a"] = dict(e["kw"]["s"])
+            feats.add("shared")
+        elif q < 0.5 and inner["kw"]["a"]["t"] == "prior":
+            e["kw"]["a"] = dict(inner["kw"]["a"])
+            feats.update(["shared", "parent-child-shared"])
+        else:
+            e["kw"]["a"] = {"t": "const", "v": (rng.randint(-8, 8) / 4.0).hex()}
+            feats.add("const")
+    walk_models(prog["root"], convert)
+    renumber(prog)
+    for spec in prog["pool"]:
+        if spec["family"] in ("loguniform", "gaussian") and rng.random() < 0.2:
+            lo = abs(unhex(spec["lo"])) + 0.25
+            hi = lo + (unhex(spec["hi"]) - unhex(spec["lo"]))
+            spec.clear()
+            spec.update({"family": "loggaussian", "mean": (0.5).hex(), "sigma": (0.5).hex(), "lo": lo.hex(), "hi": hi.hex()})
+            feats.add("loggaussian")
+    extras = []
+
+    def add_extras(e, path=()):
+        if e["t"] == "coll":
+            if rng.random() < 0.3:
+                for kind in rng.sample(EXTRA_KINDS, rng.choice([1, 1, 2])):
+                    extras.append([list(path), "x_" + kind, kind])
+                feats.add("nonfloat-constant-in-collection")
+            for k, sub in e["items"]:
+                add_extras(sub, path + (k,))
+        elif e["t"] == "model":
+            for arg, kind, _ in MG.SIGNATURES[e["cls"]]:
+                if kind == "class":
+                    add_extras(e["kw"][arg], path + (arg,))
+    add_extras(prog["root"])
+    prog["features"] = sorted(feats)
+    return extras
+
+
+def strip_extras(t):
+    """Remove the x_* constants (set by `extras`) from an abstracted model tree or instance."""
+    if isinstance(t, dict):
+        out = {}
+        for k, v in t.items():
+            if k in ("attrs", "fields") and isinstance(v, list):
+                out[k] = [[n, strip_extras(c)] for n, c in v if not str(n).startswith("x_")]
+            else:
+                out[k] = strip_extras(v)
+        return out
+    if isinstance(t, list):
+        return [strip_extras(x) for x in t]
+    return t
+
+
 def gen_case(ctx, thorough):
     rng = ctx.rng
     while True:
@@ -316,6 +477,7 @@ def gen_case(ctx, thorough):
                    big_tuples=rng.random() < (0.25 if thorough else 0.1),
                    families=("uniform", "uniform", "gaussian", "loguniform"))
         prog = g.program()
+        extras = specialise(prog, rng)
         n = len(prog["pool"])
         if 1 <= n <= (40 if thorough else 24):
             break
@@ -331,7 +493,7 @@ def gen_case(ctx, thorough):
         if not C01.has_division_by_zero(prog["root"], probe):
             break
     r = rng.random()
-    c = {"program": prog, "wms": wms, "probe": [v.hex() for v in probe]}
+    c = {"program": prog, "wms": wms, "probe": [v.hex() for v in probe], "extras": extras}
     lenmod = rng.random()
 
     def vec(vs):
@@ -341,8 +503,10 @@ def gen_case(ctx, thorough):
         elif lenmod < 0.08:
             vs = vs + [1.5]
         return [v.hex() for v in vs]
-    if r < 0.32:
+    if r < 0.30:
         c["mode"] = {"k": "means", "a": None, "r": None, "no_limits": rng.random() < 0.12, "means": vec(values)}
+    elif r < 0.32:      # both widths at once: refused
+        c["mode"] = {"k": "means", "a": (0.5).hex(), "r": (0.25).hex(), "no_limits": False, "means": vec(values)}
     elif r < 0.44:
         c["mode"] = {"k": "means", "a": gen_width(rng).hex(), "r": None, "no_limits": rng.random() < 0.1, "means": vec(values)}
     elif r < 0.60:
@@ -369,7 +533,7 @@ def gen_case(ctx, thorough):
         if lenmod < 0.05 and len(lims) > 1:
             lims = lims[:-1]
         c["mode"] = {"k": "limits", "limits": lims}
-    elif r < 0.95:
+    elif r < 0.93:
         m = []
         for i in rng.sample(range(n), rng.randint(1, max(1, min(n, 4)))):
             if rng.random() < 0.2 and n > 1:
@@ -381,7 +545,9 @@ def gen_case(ctx, thorough):
         c["mode"] = {"k": "fixed", "vec": [v.hex() for v in probe]}
     else:
         c["mode"] = {"k": "means", "a": (0.5).hex(), "r": None, "no_limits": False, "means": vec(values)}
-    c["via_result"] = c["mode"]["k"] in ("means", "bounded") and rng.random() < 0.5
+    # through a search result: samples keyed by paths (as searches produce them), without a median sample (maximum
+    # likelihood searches), keyed by parameter names (as read back from samples.csv; only when every path is a name)
+    c["via_result"] = rng.choice([False, False, "paths", "paths", "no-median", "names"]) if c["mode"]["k"] in ("means", "bounded") else False
     # searches freeze the model while fitting; mapper_from_* explicitly support a frozen model (copy_with_fixed_priors
     # deep-copies the frozen flag and then refuses to modify the copy: a frozen model is immutable by contract, not generated)
     c["frozen"] = c["mode"]["k"] != "fixed" and rng.random() < 0.2
@@ -428,6 +594,7 @@ def spec_num(s):
     d = {"family": s["family"], "lo": unhex(s["lo"]), "hi": unhex(s["hi"])}
     if s["family"] == "gaussian":
         d["mean"], d["sigma"] = unhex(s["mean"]), unhex(s["sigma"])
+    d["vf"] = s.get("vf")
     d["wm"] = None if not s.get("wm") else (s["wm"]["type"], unhex(s["wm"]["value"]))
     return d
 
@@ -449,6 +616,8 @@ def expect_success(c):
             return "negative absolute width supplied"
         if mode["r"] is not None and unhex(mode["r"]) < 0:
             return "negative relative width supplied"
+        if mode["a"] is not None and mode["r"] is not None:
+            return "both an absolute and a relative width supplied"
         return None
     if k == "bounded":
         if len(mode["floats"]) < n:
@@ -467,6 +636,8 @@ def expect_success(c):
             elif s["family"] == "gaussian":
                 if hi < lo:
                     return "requested limits are reversed"
+            elif s["family"] == "loggaussian":
+                return None           # tightening it must work like for any other prior (it raises TypeError: known finding)
             else:
                 if max(0.000001, lo) >= hi:
                     return "requested limits are empty"
@@ -474,20 +645,14 @@ def expect_success(c):
     return None
 
 
-def drop_collection_constants(e, inst):
-    """The expected instance without the float constants that a Collection holds directly."""
-    t = e["t"]
-    if t == "coll":
-        fields = []
-        for (k, sub), (k2, iv) in zip(MG.resolve_copies(e)["items"], inst["fields"]):
-            if sub["t"] == "const":
-                continue
-            fields.append([k2, drop_collection_constants(sub, iv)])
-        return {"t": "coll", "fields": fields}
-    if t == "model":
-        subs = [e["kw"][arg] for arg, _, _ in MG.SIGNATURES[e["cls"]]] + [sub for _, sub in e.get("extra", [])]
-        return {"t": "obj", "cls": inst["cls"], "fields": [[k2, drop_collection_constants(sub, iv)] for sub, (k2, iv) in zip(subs, inst["fields"])]}
-    return inst
+KNOWN_BY_MESSAGE = [
+    # (prefix of the oracle message, finding class that can explain it, required exception or None)
+    ("passing raised", "bounded-absorbed", "PriorException"),
+    ("passing raised", "with-limits-loggaussian", "TypeError"),
+    ("configuration of a shared prior", "shared-prior-config-mixup", None),
+    ("the new model lost the non-float constants", "collection-nonfloat-constant", None),
+    ("tightened prior does not map the unit interval into its limits", "with-limits-keeps-message", None),
+]
 
 
 def relevant_classes(msg, c, r):
@@ -495,114 +660,125 @@ def relevant_classes(msg, c, r):
     cls = classes_of(c)
     keep = [x for x in cls if x.startswith(("feature:", "mode:"))]
     exc = r["out"].get("exc") if isinstance(r, dict) and "out" in r else None
-    if msg.startswith("passing raised"):
-        want = {"MessageException": "relative-width-negative-mean", "IndexError": "digit-name-at-root",
-                "PriorException": "bounded-absorbed"}.get(exc)
-        if want in cls:
-            keep.append(want)
-    elif msg.startswith("the new model lost the constants held directly by a collection"):
-        if "collection-constant" in cls:
-            keep.append("collection-constant")
-    elif msg.startswith("the collections of the new model forgot their item counter"):
-        if "collection-item-number" in cls:
-            keep.append("collection-item-number")
+    for prefix, label, need in KNOWN_BY_MESSAGE:
+        if msg.startswith(prefix) and label in cls and (need is None or need == exc):
+            keep.append(label)
     return keep
 
 
 def oracle(c, r):
-    """The property statement evaluated directly on the implementation's outputs (independent of the Coq model)."""
+    """The property statement evaluated directly on the implementation's outputs (independent of the Coq model).
+    Returns every failure found (so that a recorded finding cannot hide another failure of the same case)."""
     prog, mode = c["program"], c["mode"]
     pool = prog["pool"]
     n = len(pool)
     k = mode["k"]
     orig = r["orig"]
     if not r["id_order_ok"]:
-        return "harness: pool ids not increasing"
+        return ["harness: pool ids not increasing"]
+    if r.get("extras_set") is False:
+        return ["harness: the non-float constants could not be set on the original model"]
     out = r["out"]
     why = expect_success(c)
     if "exc" in out:
         if why is None:
-            return "passing raised %s although every input is admissible" % out["exc"]
+            return ["passing raised %s although every input is admissible" % out["exc"]]
         if k == "limits" and "fewer" not in why and out["exc"] not in ("PriorException", "MessageException"):
-            return "unsatisfiable limits raised %s" % out["exc"]
-        return None
-    if why is not None and not (k in ("means", "bounded") and "supplied" in why or "not positive" in (why or "")):
-        # limits that cannot be satisfied / too few values must not silently produce a model
-        return "passing succeeded although %s" % why
+            return ["unsatisfiable limits raised %s" % out["exc"]]
+        if out["exc"] not in EXC:
+            return ["inadmissible input (%s) raised %s, which is none of the library's / Python's lookup errors" % (why, out["exc"])]
+        return []
+    if why is not None and not (k in ("means", "bounded") and "supplied" in why and "both" not in why or "not positive" in (why or "")):
+        # limits that cannot be satisfied / too few values / two widths at once must not silently produce a model
+        return ["passing succeeded although %s" % why]
     new = out["ok"]
+    fails = []
     if not r.get("orig_unchanged", True):
-        return "the original model was modified by the passing call"
+        fails.append("the original model was modified by the passing call")
     if k == "fixed":
         if new["count"] != 0:
-            return "fixed model still has %d free parameters" % new["count"]
+            fails.append("fixed model still has %d free parameters" % new["count"])
         if "ok" not in new["inst"]:
-            return "fixed model cannot be instantiated: %s" % new["inst"].get("exc")
-        if not C01.same_inst(new["inst"]["ok"], new["best_fit"]):
-            return "fixed model does not reproduce the best-fit instance"
-        vec = [unhex(x) for x in mode["vec"]]
-        if not C01.has_division_by_zero(prog["root"], vec) and not C01.same_inst(C01.expected_instance(prog["root"], vec), new["inst"]["ok"]):
-            return "fixed model differs from the composition evaluated at the best-fit vector"
-        return None
+            fails.append("fixed model cannot be instantiated: %s" % new["inst"].get("exc"))
+        else:
+            if not C01.same_inst(new["inst"]["ok"], new["best_fit"]):
+                fails.append("fixed model does not reproduce the best-fit instance")
+            vec = [unhex(x) for x in mode["vec"]]
+            if not C01.has_division_by_zero(prog["root"], vec) and not C01.same_inst(C01.expected_instance(prog["root"], vec), new["inst"]["ok"]):
+                fails.append("fixed model differs from the composition evaluated at the best-fit vector")
+        if any(not e[3] for e in r.get("extras", [])):
+            fails.append("the fixed model lost the non-float constants %s of its collections" % [e[:3] for e in r["extras"] if not e[3]])
+        return fails
     s = sigma_map(c)
     # 1. same paths; each path holds the prior that takes the place of the prior that was there
     if sorted(map(tuple, new["paths"])) != sorted(map(tuple, orig["paths"])):
-        return "the new model advertises different paths: %s vs %s" % (sorted(map(tuple, new["paths"]))[:6], sorted(map(tuple, orig["paths"]))[:6])
+        return fails + ["the new model advertises different paths: %s vs %s" % (sorted(map(tuple, new["paths"]))[:6], sorted(map(tuple, orig["paths"]))[:6])]
     if not new["paths_resolve"]:
-        return "an advertised path of the new model does not resolve to its prior"
+        fails.append("an advertised path of the new model does not resolve to its prior")
     newpp = {}
     for p, q in new["path_priors"]:
         newpp.setdefault(tuple(p), []).append(q)
     for p, q in orig["path_priors"]:
         if newpp.get(tuple(p)) != [s[q]]:
-            return "path %s held parameter %d and now holds %s (expected %d)" % (".".join(p), q, newpp.get(tuple(p)), s[q])
+            return fails + ["path %s held parameter %d and now holds %s (expected %d)" % (".".join(p), q, newpp.get(tuple(p)), s[q])]
     # 2. count and order
     exp_ids = sorted(set(s.values()))
     if new["ids"] != exp_ids:
-        return "parameter order of the new model is %s, expected %s" % (new["ids"], exp_ids)
+        return fails + ["parameter order of the new model is %s, expected %s" % (new["ids"], exp_ids)]
     if new["count"] != len(exp_ids):
-        return "parameter count %d, expected %d" % (new["count"], len(exp_ids))
+        fails.append("parameter count %d, expected %d" % (new["count"], len(exp_ids)))
     # 3. the prior on each parameter is the one derived from that parameter's own value
     specs = {q: spec_num(sp) for q, sp in new["priors"]}
+    shared_diff = set(shared_with_different_config(prog, c.get("wms"))) if k == "means" else set()
     for i in range(n):
         sp = specs[s[i]]
         old = spec_num(orig["specs"][i])
         if sp["lo"] >= sp["hi"]:
-            return "parameter %d: new prior has empty limits" % i
+            fails.append("parameter %d: new prior has empty limits" % i)
         if k == "means":
             m = unhex(mode["means"][i])
             if sp["family"] != "gaussian" or not same_float(sp["mean"], m):
-                return "parameter %d: new prior %s is not a Gaussian centred on its own inferred value %r" % (i, sp, m)
+                fails.append("parameter %d: new prior %s is not a Gaussian centred on its own inferred value %r" % (i, sp, m))
+                continue
             if sp["sigma"] < 0:
-                return "parameter %d: negative width %r" % (i, sp["sigma"])
-            wm_c, lim_c = candidates(prog, i, c.get("wms"))
-            if mode["a"] is not None:
-                ok = same_float(sp["sigma"], unhex(mode["a"]))
-            elif mode["r"] is not None:
-                ok = same_float(sp["sigma"], abs(unhex(mode["r"]) * m))
-            else:
-                ok = any(same_float(sp["sigma"], apply_wm(w, m)) for w in wm_c)
+                fails.append("parameter %d: negative width %r" % (i, sp["sigma"]))
+            if sp["vf"] and 0 < sp["sigma"] < INF and abs(m) < INF and sp["vf"][1] != m.hex():
+                fails.append("parameter %d: the median of the new prior is %s, not its inferred value %r" % (i, sp["vf"][1], m))
+            ok = False
+            for w, lim in candidates(prog, i, c.get("wms")):
+                if mode["a"] is not None:
+                    wok = same_float(sp["sigma"], unhex(mode["a"]))
+                elif mode["r"] is not None:
+                    wok = same_float(sp["sigma"], abs(unhex(mode["r"]) * m))
+                else:
+                    wok = same_float(sp["sigma"], apply_wm(w, m))
+                lok = (sp["lo"], sp["hi"]) == ((-INF, INF) if mode.get("no_limits") else lim)
+                ok = ok or (wok and lok)
             if not ok:
-                return "parameter %d: width %r is not the configured / requested width for value %r" % (i, sp["sigma"], m)
-            if mode.get("no_limits"):
-                lim_c = [(-INF, INF)]
-            if (sp["lo"], sp["hi"]) not in lim_c:
-                return "parameter %d: limits %r are not its configured limits %r" % (i, (sp["lo"], sp["hi"]), lim_c)
+                head = "configuration of a shared prior: " if i in shared_diff else ""
+                fails.append("%sparameter %d: width %r and limits %r for value %r are not the configured / requested ones of any place "
+                             "it occupies %s" % (head, i, sp["sigma"], (sp["lo"], sp["hi"]), m, candidates(prog, i, c.get("wms"))))
             if sp["wm"] != old["wm"]:
-                return "parameter %d: width modifier of the prior was not carried over" % i
+                fails.append("parameter %d: width modifier of the prior was not carried over" % i)
         elif k == "bounded":
             f, b = unhex(mode["floats"][i]), unhex(mode["b"])
             if sp["family"] != "uniform" or not same_float(sp["lo"], f - b) or not same_float(sp["hi"], f + b):
-                return "parameter %d: new prior %s is not Uniform(%r - %r, %r + %r)" % (i, sp, f, b, f, b)
+                fails.append("parameter %d: new prior %s is not Uniform(%r - %r, %r + %r)" % (i, sp, f, b, f, b))
         elif k == "limits":
             lo, hi = (unhex(x) for x in mode["limits"][i])
             if sp["family"] != old["family"]:
-                return "parameter %d: with_limits changed the prior family" % i
+                fails.append("parameter %d: with_limits changed the prior family" % i)
             if old["family"] == "uniform":
                 if not (sp["lo"] == max(lo, old["lo"]) and sp["hi"] == min(hi, old["hi"])):
-                    return "parameter %d: limits %r are not the intersection of %r and %r" % (i, (sp["lo"], sp["hi"]), (lo, hi), (old["lo"], old["hi"]))
+                    fails.append("parameter %d: limits %r are not the intersection of %r and %r" % (i, (sp["lo"], sp["hi"]), (lo, hi), (old["lo"], old["hi"])))
+                bad = [v for v in (sp["vf"] or []) if v in EXC or v.endswith("Exception") or v.endswith("Error")
+                       or not (sp["lo"] <= unhex(v) <= sp["hi"])]
+                if bad:
+                    fails.append("tightened prior does not map the unit interval into its limits: parameter %d with limits %r maps "
+                                 "u = 0.1, 0.5, 0.9 to %s" % (i, (sp["lo"], sp["hi"]), sp["vf"]))
             elif old["family"] == "gaussian":
                 if sp["sigma"] < 0:
-                    return "parameter %d: negative width" % i
+                    fails.append("parameter %d: negative width" % i)
         elif k == "replace":
             want = None
             for o, nw in mode["map"]:
@@ -610,35 +786,35 @@ def oracle(c, r):
                     want = spec_num(nw["new"]) if "new" in nw else spec_num(orig["specs"][nw["pool"]])
             if want is None:
                 want = old
-            if any(sp[key] != want[key] for key in want):
-                return "parameter %d: prior %s is not the replacement %s" % (i, sp, want)
+            if any(sp[key] != want[key] for key in want if key != "vf"):
+                fails.append("parameter %d: prior %s is not the replacement %s" % (i, sp, want))
     # 4. structure, sharing, fixed values: the new model builds the same instance from the same values
     probe = [unhex(x) for x in c["probe"]]
     if c.get("new_probe") is not None and "new_inst" in r and not C01.has_division_by_zero(prog["root"], probe):
         if "ok" not in r["new_inst"]:
-            return "the new model cannot be instantiated: %s" % r["new_inst"].get("exc")
-        exp = C01.expected_instance(prog["root"], probe)
-        if not C01.same_inst(exp, r["new_inst"]["ok"]):
-            if C01.same_inst(drop_collection_constants(prog["root"], exp), r["new_inst"]["ok"]):
-                return "the new model lost the constants held directly by a collection; everything else is preserved"
-            return "the new model does not build the instance the composition denotes (structure / sharing / constants changed)"
+            fails.append("the new model cannot be instantiated: %s" % r["new_inst"].get("exc"))
+        elif not C01.same_inst(C01.expected_instance(prog["root"], probe), r["new_inst"]["ok"]):
+            fails.append("the new model does not build the instance the composition denotes (structure / sharing / constants changed)")
+    lost = [e[:3] for e in r.get("extras", []) if not (e[3] and e[4])]
+    if lost:
+        fails.append("the new model lost the non-float constants %s held directly by its collections" % lost)
     # 5. the same through a search result
     vr = r.get("via_result")
     if vr is not None:
         if "ok" not in vr:
-            return "result.model route raised %s" % vr.get("exc")
-        if vr["ok"] is not None and (vr["ok"]["tree"] != new["tree"] or vr["ok"]["priors"] != new["priors"] or vr["ok"]["paths"] != new["paths"]):
-            return "result.model_* differs from model.mapper_from_* on the same values"
-    # 6. hidden structure: every collection still knows how many items it holds (checked last: everything else is right)
+            fails.append("result.model route (%s samples) raised %s: %s" % (c.get("via_result"), vr.get("exc"), vr.get("msg")))
+        elif vr["ok"] is not None and (vr["ok"]["tree"] != new["tree"] or vr["ok"]["priors"] != new["priors"] or vr["ok"]["paths"] != new["paths"]):
+            fails.append("result.model_* (%s samples) differs from model.mapper_from_* on the same values" % c.get("via_result"))
+    # 6. hidden structure: every collection still knows how many items it holds
     if sorted(map(lambda x: (tuple(x[0]), x[1]), new["item_numbers"])) != sorted(map(lambda x: (tuple(x[0]), x[1]), orig["item_numbers"])):
-        return "the collections of the new model forgot their item counter %s -> %s (a later append overwrites an existing component)" % (
-            orig["item_numbers"][:4], new["item_numbers"][:4])
-    return None
+        fails.append("the collections of the new model forgot their item counter %s -> %s (a later append overwrites an existing component)" % (
+            orig["item_numbers"][:4], new["item_numbers"][:4]))
+    return fails
 
 
 # ---- Coq printers ---------------------------------------------------------
-FAM = {"uniform": "FUniform", "gaussian": "FGaussian", "loguniform": "FLogUniform"}
-EXC = {"MessageException": "EMessage", "PriorException": "EPrior", "IndexError": "EIndex", "KeyError": "EKey"}
+FAM = {"uniform": "FUniform", "gaussian": "FGaussian", "loguniform": "FLogUniform", "loggaussian": "FLogGaussian"}
+EXC = {"MessageException": "EMessage", "PriorException": "EPrior", "IndexError": "EIndex", "KeyError": "EKey", "TypeError": "EType"}
 
 
 def coq_wm(w):
@@ -649,7 +825,7 @@ def coq_wm(w):
 
 def coq_spec(s):
     lo, hi = unhex(s["lo"]), unhex(s["hi"])
-    mean = unhex(s["mean"]) if s["family"] == "gaussian" else lo
+    mean = unhex(s["mean"]) if s["family"] == "gaussian" else lo      # only Gaussians are compared on mean / sigma
     sig = unhex(s["sigma"]) if s["family"] == "gaussian" else lo
     return "(mk %s %s %s %s %s %s)" % (FAM[s["family"]], cfloat(lo), cfloat(hi), cfloat(mean), cfloat(sig), coq_wm(s.get("wm")))
 
@@ -810,7 +986,8 @@ def run(ctx):
         key = {"program": prog, "mode": c["mode"], "wms": c.get("wms")}
         ctx.count_case(key, nontrivial(c), c["mode"]["k"])
         ctx.hist("frozen", bool(c.get("frozen")))
-        ctx.hist("via-result", bool(c.get("via_result")))
+        ctx.hist("via-result", str(c.get("via_result")))
+        ctx.hist("nonfloat-constants", len(c.get("extras") or []))
         for f in prog["features"]:
             ctx.hist("feature", f)
         ctx.hist("priors", min(len(prog["pool"]), 20))
@@ -822,7 +999,7 @@ def run(ctx):
             ctx.oracle["failures"] += 1
             ctx.failure("oracle", "driver raised %s: %s" % (r["exc"], r.get("msg", "")[-300:]), c, classes=cls)
             continue
-        r = r["ok"]
+        r = results[i]["ok"] = strip_extras(r["ok"])       # the x_* constants are reported separately (r["extras"])
         if not MG.same_tree(MG.expected_tree(prog["root"]), r["orig"]["tree"]):
             ctx.oracle["failures"] += 1
             ctx.failure("correspondence", "the composition API built a different object graph than the program denotes", c,
@@ -830,18 +1007,17 @@ def run(ctx):
             continue
         ctx.hist("outcome", "ok" if "ok" in r["out"] else r["out"]["exc"])
         ctx.hist("theorem-hypothesis-wf", tree_wf(r["orig"]["tree"]))
-        msg = oracle(c, r)
-        if msg:
+        msgs = oracle(c, r)
+        for msg in msgs:
             ctx.oracle["failures"] += 1
             ctx.failure("oracle", msg, c, classes=relevant_classes(msg, c, r),
                         impl={"out": r["out"] if "exc" in r["out"] else {k: r["out"]["ok"].get(k) for k in ("paths", "ids", "priors", "count")}})
         cc = coq_case(c, r)
         if cc is None:
             ctx.hist("skipped", "not-expressible")
-            if not msg and "exc" in r["out"] and expect_success(c) is not None:
-                pass
-            elif not msg:
-                ctx.failure("oracle", "outcome cannot be expressed in the model: %s" % (r["out"].get("exc"),), c, classes=cls, impl=r["out"])
+            if not msgs:
+                ctx.failure("oracle", "outcome cannot be expressed in the model: %s" % (r["out"].get("exc"),), c,
+                            classes=[x for x in cls if x.startswith(("feature:", "mode:"))], impl=r["out"])
         else:
             coq_cases.append(cc)
             coq_idx.append(i)
@@ -856,10 +1032,10 @@ def run(ctx):
         bad, log = ctx.eval_cases(hdr, "case", "check_case", coq_cases, shard=30)
         for b in (bad or [])[:5]:
             i = coq_idx[b]
-            o = oracle(cases[i], results[i]["ok"])
+            o = "; ".join(oracle(cases[i], results[i]["ok"]))
             ctx.failure("correspondence", "Coq model and implementation disagree on the passed model" + (": " + o if o else ""), cases[i],
                         classes=[x for x in classes_of(cases[i]) if x.startswith(("feature:", "mode:"))], impl=results[i]["ok"]["out"],
-                        broken={"kind": "correspondence", "name": "C12.check_case"}, found_input=o is not None)
+                        broken={"kind": "correspondence", "name": "C12.check_case"}, found_input=bool(o))
     else:
         ctx.obligation("correspondence:cases", "correspondence", False, "Model.vo not built")
 
